@@ -192,6 +192,8 @@ func nodeVal(t string) interface{} {
 		return obj{"path": p, "permissions": "rw"}
 	case "permall":
 		return obj{"path": p, "permissions": "rwm"}
+	case "permlong":
+		return obj{"path": p, "permissions": "rwmrw"} // letters within rwm, repeated
 	case "owner":
 		return obj{"path": p, "fileMode": 432, "uid": 1, "gid": 2}
 	case "hostpath":
